@@ -72,13 +72,20 @@ CHECKS = {
     ),
     "C07": (
         "exploration",
-        "before/after snapshot + per-verb footprint monitor on the real ConfigState::dispatch",
+        "before/after snapshot monitors: per-verb footprint on the real ConfigState::dispatch, and behaviour + resolver probes around FAILURE answers of a live worker",
         "DESIGN.md section 3 C07",
-        "Every command of random histories (half from a 52-entry catalogue of commands with exactly one invalid field) is "
+        "(a) Every command of random histories (half from a 52-entry catalogue of commands with exactly one invalid field) is "
         "judged against a clone taken before it: Err => all 11 maps strictly equal; Ok => every difference inside the "
-        "verb's footprint (for patches only the fields present in the patch). Held on the histories explored.",
-        "Trusted: the footprint table (written from the verb semantics); hub- and worker-level no-trace checks are part "
-        "of C08's lab (signatures c07/...).",
+        "verb's footprint (for patches only the fields present in the patch). (b) A real worker in a random reachable state "
+        "receives commands from a 22-entry catalogue (unparsable answer templates and certificates, unknown old fingerprints, "
+        "listener patches with visible valid fields plus one invalid part, duplicate/invalid frontends, unknown targets) mixed "
+        "with generator noise; for every command the worker answers FAILURE the live proxies are observed right before and "
+        "after: listening sockets, HTTP/HTTPS routing outcomes (status, Location, WWW-Authenticate, HSTS, header names seen by "
+        "client and backend), sozu's own answer bodies, served certificate per SNI, TCP/UDP forwarding, the TLS resolver's "
+        "certificate list and the backend table; a new fact must be observed twice. Held on the histories explored.",
+        "Trusted: the footprint table (written from the verb semantics); in (b) silence is a wildcard (only positive facts are "
+        "compared), tags and load-balancer choices are not observable; the worker's config_state copy drifting on FAILURE is a "
+        "known finding registered under C08 (signatures c07/...) and is not re-judged here.",
     ),
     "C10": (
         "fault_enumeration",
